@@ -13,6 +13,7 @@ import (
 	"runtime"
 	"strings"
 	"sync"
+	"sync/atomic"
 	"time"
 
 	regexp2 "github.com/dlclark/regexp2/v2"
@@ -27,8 +28,11 @@ func init() {
 
 // a world is the set of fresh Regexps one execution works on
 type c11world struct {
-	re map[string]*regexp2.Regexp
+	re  map[string]*regexp2.Regexp
+	seq int // number of this world (S13 compiles a class no earlier world has compiled)
 }
+
+var c11WorldSeq atomic.Int64
 
 type c11call struct {
 	name string
@@ -92,6 +96,22 @@ func callSplit(re, in string) c11call {
 	return c11call{fmt.Sprintf("%s.Split(%q)", re, in), func(w *c11world) string {
 		x, err := w.re[re].Split(in, -1)
 		return fmt.Sprintf("%q %v", x, err)
+	}}
+}
+
+// callCompileAndMatch compiles its own Regexp inside the goroutine and uses it at once: whatever Compile shares
+// process-wide (tables built on first use, caches keyed by class or pattern) is then built by one goroutine while
+// another one already reads it. The class gets one member that no earlier world has used, so that every execution
+// starts from "not yet in any table".
+func callCompileAndMatch(patFmt, in string) c11call {
+	return c11call{fmt.Sprintf("Compile(%s).MatchString(%q)", patFmt, in), func(w *c11world) string {
+		re, err := regexp2.Compile(fmt.Sprintf(patFmt, 0x4e00+w.seq%0x5000), regexp2.None)
+		if err != nil {
+			return err.Error()
+		}
+		ok, err := re.MatchString(in)
+		m, err2 := re.FindStringMatch("q" + in)
+		return fmt.Sprint(ok, err) + " " + fmtMatch(m, err2)
 	}}
 }
 
@@ -192,6 +212,12 @@ func c11List(tier string) []c11scen {
 		return w
 	}, stepK: 12, pb: 2,
 		threads: [][]c11call{{callMatchString("R1", long1k)}, {callMatchString("R2", long1kb)}}})
+	// S13 every goroutine compiles the same pattern itself and uses its own Regexp at once (class bitmaps and
+	// anything else Compile might share process-wide must be complete before another goroutine can see them)
+	add(c11scen{name: "S13 Compile+use||Compile+use (same new class)", build: func() *c11world {
+		return &c11world{re: map[string]*regexp2.Regexp{}, seq: int(c11WorldSeq.Add(1))}
+	}, pb: 2,
+		threads: [][]c11call{{callCompileAndMatch(`[\p{Greek}\p{Cyrillic}\x{%x}xz]+[a-cz]`, "zxzz")}, {callCompileAndMatch(`[\p{Greek}\p{Cyrillic}\x{%x}xz]+[a-cz]`, "xzc")}, {callCompileAndMatch(`[\p{Greek}\p{Cyrillic}\x{%x}xz]+[a-cz]`, "zxb")}}})
 	// S8 balancing pattern ∥ bool-only call on the same Regexp
 	add(c11scen{name: "S8 balancing||bool", build: mk(map[string][]any{"R": {`(?<o>a)+(?<-o>b)+(?(o)(?!))`}}), stepK: 8,
 		threads: [][]c11call{{callFind("R", "aabb"), callIterate("R", "abab")}, {callMatchString("R", "aab"), callMatchRunes("R", "ab")}}})
